@@ -513,8 +513,36 @@ func runPure(c *corr.Ctx, g gen) {
 	}
 }
 
+// enumTokens: every URL "rtsp://h" + "/" + t1…tk (k ≤ depth) over a small token alphabet that contains the
+// server's tag, its pieces, the separators and an escaped slash: exhaustive small scope for the split / join logic.
+func enumTokens(c *corr.Ctx, g gen, depth int) {
+	toks := []string{"a", "/", "/trackID=", "1", "?", "=", "%2F"}
+	var rec func(prefix string, d int)
+	rec = func(prefix string, d int) {
+		s := "rtsp://h/" + prefix
+		pureURLOps(c, g, "enum", s)
+		if q := strings.IndexByte(prefix, '?'); true {
+			parts := URLParts{Scheme: "rtsp", Host: "h", Path: "/" + prefix}
+			if q >= 0 {
+				parts.Path, parts.Query, parts.Force = "/"+prefix[:q], prefix[q+1:], true
+			}
+			checkPureRoundTrip(c, parts, 2)
+		}
+		c.Dist("sweep-enum")
+		if d == 0 {
+			return
+		}
+		for _, t := range toks {
+			rec(prefix+t, d-1)
+		}
+	}
+	rec("", depth)
+}
+
 // runSweeps: boundary sweeps (small exhaustive families).
 func runSweeps(c *corr.Ctx, g gen) {
+	c.Exhaustive()
+	enumTokens(c, g, c.N(3, 5))
 	// stringsReverseIndex around its start offset: every placement of the tag in short strings
 	tag := "/trackID="
 	for pre := 0; pre <= 3; pre++ {
